@@ -549,6 +549,12 @@ def _pow(ex, args, n):
     x, y = real(ex.ev(args[0])), real(ex.ev(args[1]))
     r = POW(x, y)
     ex.assume(z3.Implies(x > 0, r > 0))
+    # monotonicity facts of the real power function for bases above 1 (A2)
+    ex.assume(z3.Implies(z3.And(x > 1, y <= 0), r <= 1))
+    ex.assume(z3.Implies(z3.And(x > 1, y >= 0), r >= 1))
+    ex.assume(z3.Implies(y == 0, r == 1))
+    ex.assumed.add('libm: pow as uninterpreted function: positive for positive base, <= 1 / >= 1 by the sign of the '
+                   'exponent for bases above 1, pow(x, 0) = 1')
     return r
 
 
